@@ -1007,7 +1007,7 @@ class Dilator:
             self._manager = m
             if self._pending_dilation_key is not None:
                 m.got_dilation_key(self._pending_dilation_key)
-            if self._pending_wormhole_versions:
+            if self._pending_wormhole_versions is not None:
                 m.got_wormhole_versions(self._pending_wormhole_versions)
             while self._pending_inbound_dilate_messages:
                 plaintext = self._pending_inbound_dilate_messages.popleft()
